@@ -1358,3 +1358,62 @@ Lemma no_panic_full_refuted : ~ imports_no_panic_full.
 Proof.
   intros H. destruct dup_target_refuted as (root & _ & Hp & _). exact (H _ _ _ Hp).
 Qed.
+
+(** * Unguarded soundness of the result: whatever the shape of the graph, every definition of a
+      successful result is one of the root's own or a *fragment definition* that a reachable line
+      asks for — an operation of an imported file is never brought in, whatever its name *)
+Lemma wanted_frag f i d : In d (wanted f i) -> def_is_frag d = true.
+Proof.
+  unfold wanted. destruct (itargets i) as [|ts]; intros H; apply filter_In in H; destruct H as [_ H].
+  - exact H.
+  - apply existsb_exists in H. destruct H as (t & _ & H). apply is_frag_named_spec in H. tauto.
+Qed.
+
+Lemma imports_sound st root_path root ds :
+  resolve_imports st root_path root = inr ds ->
+  forall d, In d ds ->
+    Closure st root_path root d /\ (In d (fdefs root) \/ def_is_frag d = true).
+Proof.
+  intros H d Hd. destruct (top_ok st root_path root ds H) as (tr & -> & _ & Hent & _).
+  apply in_app_or in Hd. destruct Hd as [Hd|Hd].
+  - split; [left; exact Hd | left; exact Hd].
+  - apply in_tr_defs in Hd. destruct Hd as (k & i & f & Hin & Hw).
+    destruct (Hent k i f Hin) as (Hl & _ & Hr). split.
+    + right. exists k, i, f. auto.
+    + right. eapply wanted_frag; exact Hw.
+Qed.
+
+(** an operation that carries the requested name does not satisfy the request *)
+Definition main_user : file :=
+  {| fdefs := [Def false (s "Main") 0]; fimports := [imp (s "./user.graphql") (names [s "User"])] |}.
+Definition user_only_query : file :=
+  {| fdefs := [Def false (s "User") 100; frag (s "Other") 101]; fimports := [] |}.
+Definition user_both : file :=
+  {| fdefs := [Def false (s "User") 100; frag (s "User") 101]; fimports := [] |}.
+Example operation_name_is_not_a_fragment :
+  resolve_imports [(kp (s "/p/user.graphql"), user_only_query)] k_main main_user
+    = inl (FragmentNotFound (s "User") (s "./user.graphql") P0)
+  /\ resolve_imports [(kp (s "/p/user.graphql"), user_both)] k_main main_user
+    = inr [Def false (s "Main") 0; frag (s "User") 101]
+  /\ resolve_imports [(kp (s "/p/user.graphql"), user_both)] k_main
+       {| fdefs := [Def false (s "Main") 0];
+          fimports := [imp (s "./user.graphql") (names [s "User"; s "Missing"])] |}
+    = inl (FragmentNotFound (s "Missing") (s "./user.graphql") P0).
+Proof. vm_compute. repeat split; reflexivity. Qed.
+
+(** * Work bound: a successful run enters every stored file at most once — the result is the root's
+      definitions followed by the selections of at most [length st] processed import lines, one per
+      distinct file key (the traversal is linear in the store, not in the number of import paths) *)
+Lemma imports_linear_work st root_path root ds :
+  resolve_imports st root_path root = inr ds ->
+  exists tr : list entry,
+    ds = fdefs root ++ tr_defs tr /\ NoDup (map ekey tr) /\ length tr <= length st.
+Proof.
+  intros H. destruct (top_ok st root_path root ds H) as (tr & Hds & Hnd & Hent & _).
+  exists tr. split; [exact Hds|]. split; [exact Hnd|].
+  rewrite <- (map_length ekey tr), <- (map_length fst st).
+  apply NoDup_incl_length; [exact Hnd|].
+  intros k Hk. apply in_keys in Hk. destruct Hk as (i & f & Hin).
+  destruct (Hent k i f Hin) as (Hl & _). apply lookup_In in Hl.
+  apply in_map_iff. exists (k, f). auto.
+Qed.
